@@ -18,19 +18,19 @@ import (
 )
 
 type SpecEnv struct {
-	x       *Exec
-	s       *State
-	old     *State // nil: pristine entry state of the function under verification
-	vars    map[string]Val
-	lets    map[string]Val
-	frame   *Frame
-	pkgPath string
-	fn      *ssa.Function
-	bound   map[string]*Term
-	inOld   bool
+	x        *Exec
+	s        *State
+	old      *State // nil: pristine entry state of the function under verification
+	vars     map[string]Val
+	lets     map[string]Val
+	frame    *Frame
+	pkgPath  string
+	fn       *ssa.Function
+	bound    map[string]*Term
+	inOld    bool
 	defDepth int
-	prev    *State // state at the head of the loop (step clauses)
-	quiet   bool // unknown identifiers are not errors (probing)
+	prev     *State // state at the head of the loop (step clauses)
+	quiet    bool   // unknown identifiers are not errors (probing)
 }
 
 func (x *Exec) specEnv(s *State, old *State) *SpecEnv {
